@@ -118,6 +118,7 @@ type browser struct {
 	stopReturned   bool
 	lastSleepReads int64
 	lastSleepSteps int64
+	overdue        int64
 	sleeps         int
 	scripted       int // scripted tasks not yet run
 	inSleep        bool
@@ -413,6 +414,23 @@ func (b *browser) hasScripted() bool {
 }
 
 func (b *browser) onTick() {
+	if simtime.Steps%4096 == 0 {
+		core.Heartbeat()
+	}
+	// a Stop click that is due can only be delivered while Go sleeps: if Go does
+	// not give the browser control for a long stretch of evaluation steps the
+	// program is not interruptible (today's policy yields every ~1000 steps + 100 ms)
+	if !b.stopped && b.tasks.Len() > 0 && b.tasks[0].kind == "stop" && b.tasks[0].at <= simtime.NowNs {
+		b.overdue++
+		if b.overdue > 400_000 {
+			b.res.StopClicked = true
+			b.res.StopAt = b.tasks[0].at
+			b.res.StopDuring = "never-yielded"
+			panic(abort{"a Stop click was due for 400000 evaluation steps but Go never yielded to the browser"})
+		}
+	} else {
+		b.overdue = 0
+	}
 	if b.res.StopClicked {
 		b.res.StepsAfterStop = simtime.Steps - b.res.StopAtStep
 		if b.res.StepsAfterStop > 2_000_000 {
@@ -426,6 +444,7 @@ func (b *browser) onTick() {
 
 // Run executes one scenario at level L2.
 func Run(sc *core.Scenario, o Opts) *Result {
+	core.Heartbeat()
 	if o.Actions == "" {
 		o.Actions = "fmt,ui,eval"
 	}
